@@ -10,8 +10,8 @@
 #ifdef REPLAY
 #include <unistd.h>
 #include <sys/wait.h>
-#include "mir.c"
-#include "mir-gen.c"
+#include "mir.h"
+#include "mir-gen.h" /* the native build links /repo/mir.c and /repo/mir-gen.c (Ob native_cc) */
 static void *c01_resolver (const char *name) { (void) name; return (void *) abort; }
 static void c01_compile_all (void) {
   MIR_context_t ctx = MIR_init ();
